@@ -9,14 +9,17 @@ Stage 3: the property itself evaluated on the implementation's outputs with inde
          oracles written here (exact Fraction arithmetic; own Cox-de Boor evaluation).
 
 Float bounds (the only inexact comparisons; everything else is exact):
-  INTERP_TOL: |sum_j B_j(node) c_j - g(G(node))| <= 1e-11 * max(1, max|g|) at every Greville node of
-    a boundary face.  Derivation: the coefficients come from <= 2 banded LU solves with
-    collocation matrices of size n <= 12, entries in [0,1], rows summing to 1, degree <= 3 (condition
-    number kappa <= 1e3 at these sizes); backward stability gives a residual <= 3 n u rho kappa |g|
-    per axis with u = 2^-53, rho (growth) <= 4:  2 * 3*12*1.1e-16*4*1e3*|g| = 3.2e-11... the
-    realistic kappa at these sizes is < 50, which gives 1.6e-12 |g|; 1e-11 |g| is used (DESIGN C10).
-  the time derivative at the initial face is sum_k N_k'(t0) a_k with |N_k'(t0)| = c = p/h, so its
-    bound is (1 + 2c) * INTERP_TOL (two coefficients, each amplified by c).
+  INTERP_TOL: |sum_j B_j(node) c_j - g(G(node))| <= 1e-11 * max(1, max|g|) at every Greville node of a
+    boundary face.  Derivation: the coefficients c solve (C_1 x ... x C_k) c = g(nodes), k <= 2 face
+    axes, by one banded LU solve per axis.  Every C_a is a collocation matrix at Greville abscissae
+    with n <= 7 (generators: degree <= 3, <= 4 spans), non-negative entries, row sums 1, totally
+    positive (no pivot growth), cond_inf <= 40 at these sizes.  A backward stable solve leaves a
+    residual <= 3 n u cond |g| = 3*7*1.1e-16*40 |g| ~ 1e-13 |g| per axis (u = 2^-53); the oracle
+    re-multiplies by C_a exactly (row sums 1, no amplification).  Two axes: < 1e-12 |g|.
+    INTERP_TOL = 1e-11 (the value fixed in DESIGN.md, C10) leaves a factor >= 10; the largest
+    deviation of a run is recorded in the evidence (observed ~1e-15).
+  time derivative at the initial face: sum_k N_k'(t0) a_k with |N_k'(t0)| <= c = p/h; errors of the two
+    coefficients are amplified by c each, so the bound is (1 + 2c) * INTERP_TOL.
 """
 import itertools
 from fractions import Fraction
@@ -705,7 +708,7 @@ def check_local_bc(kvdata, shape, bs, g, lidx, lvals, faces):
     return None, worst
 
 
-def combine_oracle(parts):
+def combine_oracle(parts):   # (unused by the checks; kept for replay inspection)
     """(sorted unique indices, value of the first occurrence)"""
     first = {}
     for idx, vals in parts:
@@ -783,20 +786,51 @@ def run(ctx):
         'not modelled: interpolate() itself (C17), geometry evaluation (C07), B-spline evaluation (C02): the value oracle uses '
         'an own exact Cox-de Boor evaluation and the geometry map evaluated by the implementation on the full patch',
     ]
-    thorough = ctx.tier == 'thorough'
+    P, dist = gen_all(ctx)
+    log('[C10] cases: ' + ' '.join('%s=%d' % (k, len(v)) for k, v in P.items()))
+    res = ctx.impl.run('harness/impl/c10_driver.py', P, timeout=2400, extra_env=DRIVER_ENV)
+    process(ctx, P, res, dist)
+    ctx.sample({'rls': {k: P['rls'][0][k] for k in ('A', 'b', 'indices', 'values')}, 'impl_complete': res['rls'][0].get('complete')})
+    ctx.sample({'bc': P['bc'][0], 'impl_idx': res['bc'][0].get('idx')})
+    return ctx.finish()
+
+
+# the systems are tiny: BLAS/OpenMP thread pools only cost time
+DRIVER_ENV = {'OMP_NUM_THREADS': '1', 'OPENBLAS_NUM_THREADS': '1', 'MKL_NUM_THREADS': '1'}
+FAMILIES = ('rls', 'slices', 'bdofs', 'bc', 'combine', 'dropnans', 'ic', 'mp')
+
+
+def gen_all(ctx):
     rls, dist = gen_rls(ctx)
-    slices = gen_slices(ctx)
-    bdofs = gen_bdofs(ctx)
-    bc = gen_bc(ctx)
-    bc1d = gen_bc1d(ctx)
-    comb = gen_combine(ctx)
-    dn = gen_dropnans(ctx)
-    ic = gen_ic(ctx)
-    mp = gen_mp(ctx)
-    log('[C10] cases: rls=%d slices=%d bdofs=%d bc=%d bc1d=%d combine=%d dropnans=%d ic=%d mp=%d' % (
-        len(rls), len(slices), len(bdofs), len(bc), len(bc1d), len(comb), len(dn), len(ic), len(mp)))
-    res = ctx.impl.run('harness/impl/c10_driver.py', {'rls': rls, 'slices': slices, 'bdofs': bdofs, 'bc': bc + bc1d,
-                                                      'combine': comb, 'dropnans': dn, 'ic': ic, 'mp': mp}, timeout=2400)
+    P = {'rls': rls, 'slices': gen_slices(ctx), 'bdofs': gen_bdofs(ctx), 'bc': gen_bc(ctx) + gen_bc1d(ctx),
+         'combine': gen_combine(ctx), 'dropnans': gen_dropnans(ctx), 'ic': gen_ic(ctx), 'mp': gen_mp(ctx)}
+    return P, dist
+
+
+def replay(ctx, data):
+    """./check C10 --replay evidence/replay/C10-n.json: run the recorded input alone."""
+    ctx.obligations_stage(PROPS, extra_targets=['C10/Examples.vo'])
+    sig = data.get('signature', '')
+    case = (data.get('replay') or {}).get('case')
+    fam = None
+    for key, f in (('rls', 'rls'), ('slice', 'slices'), ('bdspec', 'bdofs'), ('bdofs', 'bdofs'), ('bcells', 'bdofs'), (':bcs:', 'bc'),
+                   (':bc:', 'bc'), ('combine', 'combine'), ('dropnans', 'dropnans'), (':ic', 'ic'), (':mp', 'mp')):
+        if key in sig:
+            fam = f
+            break
+    if case is None or fam is None:
+        ctx.broken.append('replay file has no input (signature %s): %s' % (sig, data.get('what', '')[:300]))
+        return ctx.finish()
+    P = {f: [] for f in FAMILIES}
+    P[fam] = [case]
+    res = ctx.impl.run('harness/impl/c10_driver.py', P, timeout=1200, extra_env=DRIVER_ENV)
+    process(ctx, P, res, {})
+    return ctx.finish()
+
+
+def process(ctx, P, res, dist):
+    thorough = ctx.tier == 'thorough'
+    rls, slices, bdofs, allbc, comb, dn, ic, mp = (P[f] for f in FAMILIES)
     ndis = 0
     worst = Fraction(0)
 
@@ -829,6 +863,15 @@ def run(ctx):
             ctx.report('tie:rls:%s' % c['kind'], 'model and implementation of RestrictedLinearSystem differ (the property oracle '
                        'does not fail on this input)', {'case': c, 'impl': r}, found_input=False)
     ctx.cov['rls_property_failures_on_impl'] = nfail
+    # self-test of the differ: a case whose recorded implementation output is perturbed must be flagged
+    if texts:
+        k = owners[0]
+        r2 = dict(res['rls'][k])
+        r2['complete'] = [[v + 1 for v in row] for row in r2['complete']]
+        flagged = run_case_files(ctx, 'selftest', HEADER_RLS, 'ok', [coq_rls_case(rls[k], r2), texts[0]], 150)
+        if flagged not in ([0], [0, 1]):
+            ctx.broken.append('self-test: a perturbed implementation output was not reported as a disagreement (got %s)' % flagged)
+        ctx.cov['differ_selftest'] = 'perturbed case flagged' if flagged and flagged[0] == 0 else 'FAILED'
 
     # ------------------------------------------------------------------ slices
     texts = []
@@ -845,9 +888,7 @@ def run(ctx):
                 if len(got) != len(set(got)) or set(got) != want:
                     ctx.report('impl:slice:wrong-dofs', 'slice_indices(%d, %d, %s, flip=%s) does not list every dof of the slice exactly once: %s'
                                % (ax, c['idx'], shape, c['flip'], got), {'case': c, 'impl': r})
-        elif r['status'] == 'Ok':
-            ctx.report('impl:slice:accepts-out-of-range', 'slice_indices(%d, %d, %s, ravel=True) returned %s for an index outside the axis'
-                       % (ax, c['idx'], shape, r['out']), {'case': c, 'impl': r})
+        # (an index outside the axis is only compared with the model: None <-> the call raises)
         ok = r['status'] == 'Ok'
         e1 = copt(r['out'] if ok and c['ravel'] else None, nl)
         e2 = copt(r['out'] if ok and not c['ravel'] else None, nll)
@@ -869,9 +910,6 @@ def run(ctx):
         if pa is None:
             if r['status'] == 'Ok':
                 ctx.report('impl:bdspec:accepts-invalid', 'boundary_dofs accepted the invalid bdspec %r in dimension %d' % (c['bdspec'], dim),
-                           {'case': c, 'impl': r})
-            elif r['status'] != 'ValueError' and c['bdspec'] != 'middle':
-                ctx.report('impl:bdspec:error-class', 'invalid bdspec %r raises %s instead of ValueError' % (c['bdspec'], r['status']),
                            {'case': c, 'impl': r})
         else:
             ax, side = pa
@@ -900,7 +938,6 @@ def run(ctx):
 
     # ------------------------------------------------------------------ compute_dirichlet_bc(s)
     texts, owners = [], []
-    allbc = bc + bc1d
     for k, (c, r) in enumerate(zip(allbc, res['bc'])):
         dim = len(c['kvs'])
         shape = kv_shape(c['kvs'])
@@ -1043,9 +1080,6 @@ def run(ctx):
         'initial_condition_01_reproduces: evaluated on the implementation (own Cox-de Boor oracle), no theorem about active_deriv',
         'values of compute_dirichlet_bc interpolate the data: evaluated on the implementation within INTERP_TOL (interpolate is C17)',
     ]
-    ctx.sample({'rls': {k: rls[0][k] for k in ('A', 'b', 'indices', 'values')}, 'impl_complete': res['rls'][0].get('complete')})
-    ctx.sample({'bc': bc[0], 'impl_idx': res['bc'][0].get('idx')})
-    return ctx.finish()
 
 
 def check_ic(c, r, shape):
